@@ -299,6 +299,29 @@ func genC19(t *rapid.T) *C19Case {
 			o.RawTag = &rt
 			c.Note = "mutated tag"
 		}
+	case 5: // malformed tag on a nested group's or a by-tag command's struct field
+		var gs []*Group
+		var cs []*Cmd
+		d.EachCmd(func(cm *Cmd, _ []*Cmd) {
+			if cm != &d.Root && cm.ByTag {
+				cs = append(cs, cm)
+			}
+			cm.G.EachGroup(func(g *Group, parents []*Group) {
+				if len(parents) > 0 && g.Field != "" && (cm.ByTag || len(parents) > 1) {
+					gs = append(gs, g)
+				}
+			})
+		})
+		bad := rapid.SampledFrom([]string{`group"x"`, `group:"x`, `command:x`, `group:"x" namespace:"\q"`, "group:\"a\nb\"", `description:"d" group`, `command:"c" alias:"a`}).Draw(t, "badFieldTag")
+		if len(gs)+len(cs) > 0 {
+			i := rapid.IntRange(0, len(gs)+len(cs)-1).Draw(t, "badFieldAt")
+			if i < len(gs) {
+				gs[i].RawTag = &bad
+			} else {
+				cs[i-len(gs)].RawTag = &bad
+			}
+			c.Note = "malformed group/command field tag"
+		}
 	case 2: // short name too long
 		o := pick("shortOpt")
 		o.Short = rapid.SampledFrom([]string{"ab", "éé", "xyz", "a ", "日本"}).Draw(t, "longShort")
@@ -472,6 +495,22 @@ func c19Oracle(c *C19Case) string {
 			expect[flags.ErrInvalidTag] = true
 		}
 	}
+	// verbatim tags on group / command struct fields
+	d.EachCmd(func(cm *Cmd, _ []*Cmd) {
+		check := func(raw *string) {
+			if raw == nil {
+				return
+			}
+			switch _, v := refScanTag(*raw); v {
+			case tagMalformed:
+				expect[flags.ErrTag] = true
+			default:
+				unsettled = true // only malformed field tags are generated
+			}
+		}
+		check(cm.RawTag)
+		cm.G.EachGroup(func(g *Group, _ []*Group) { check(g.RawTag) })
+	})
 	// duplicates per declaration unit (one added struct / one command struct)
 	d.EachCmd(func(cm *Cmd, chain []*Cmd) {
 		units := map[*Group][]*OptInfo{}
@@ -698,7 +737,7 @@ func c19CompareModel(d *Decl, b *Built, sems map[string]semOpt) string {
 }
 
 func TestC19(t *testing.T) {
-	S("C19").Rule = "declarations (options of 10 types, nested groups with namespaces/env-namespaces, commands by tag and programmatic with aliases, positionals with N / N-M counts) whose tag values are arbitrary strings (quotes, backslashes, edge blanks, non-ASCII, control characters, invalid bytes) spelled with a per-character random escape (raw, \\\", \\\\, \\xNN, \\NNN, \\uNNNN) and 1-3 blanks between pairs; plus one of: repeated single-valued keys (earlier values must lose), a mutation of a well-formed tag at a random position (colon or quote removed, raw newline, invalid escape, truncation, stray text), short name of 2+ characters, default on a flag, two options of one declaration with the same short or namespaced long name (also collisions created only by namespaces). oracle: reference scanner of the conventional tag syntax decides well-formed/malformed; well-formed => the exported model (Option/Group/Command/Arg fields, order, field binding) equals the declared attributes (last value for single-valued keys, all in order for default/choice/optional-value/alias); faults => ErrTag / ErrShortNameTooLong / ErrInvalidTag / ErrDuplicatedFlag from AddGroup/AddCommand and from NewParser+ParseArgs. non-trivial: a tag with escapes or non-ASCII, or an injected fault; distinct by (declaration signature, spelling seed)"
+	S("C19").Rule = "declarations (options of 10 types, nested groups with namespaces/env-namespaces, commands by tag and programmatic with aliases, positionals with N / N-M counts) whose tag values are arbitrary strings (quotes, backslashes, edge blanks, non-ASCII, control characters, invalid bytes) spelled with a per-character random escape (raw, \\\", \\\\, \\xNN, \\NNN, \\uNNNN) and 1-3 blanks between pairs; plus one of: repeated single-valued keys (earlier values must lose), a mutation of a well-formed tag at a random position (colon or quote removed, raw newline, invalid escape, truncation, stray text), a malformed tag on a nested group's or command's struct field, short name of 2+ characters, default on a flag, two options of one declaration with the same short or namespaced long name (also collisions created only by namespaces). oracle: reference scanner of the conventional tag syntax decides well-formed/malformed; well-formed => the exported model (Option/Group/Command/Arg fields, order, field binding) equals the declared attributes (last value for single-valued keys, all in order for default/choice/optional-value/alias); faults => ErrTag / ErrShortNameTooLong / ErrInvalidTag / ErrDuplicatedFlag from AddGroup/AddCommand and from NewParser+ParseArgs. non-trivial: a tag with escapes or non-ASCII, or an injected fault; distinct by (declaration signature, spelling seed)"
 	runProp(t, "C19", genC19, c19Oracle)
 }
 
